@@ -266,10 +266,14 @@ func c10Inputs(l *Lab, cfg c10Cfg, rnd *rand.Rand) []c10Input {
 	trs := Transports()
 	pick := func(i int) string { return trs[i%len(trs)] }
 	// ---- packet headers: type values, length fields, truncation
-	ntypes := l.Pick(600, 65536)
+	// all 65536 type values in two configurations of the thorough tier, a sample elsewhere
+	ntypes := l.Pick(600, 4000)
+	if !l.Quick() && (cfg.Name == "openid-plain" || cfg.Name == "ntlm-plain-bufs") {
+		ntypes = 65536
+	}
 	for i := 0; i < ntypes; i++ {
 		ty := uint16(i)
-		if l.Quick() && i >= 300 {
+		if ntypes != 65536 && i >= 300 {
 			ty = uint16(rnd.Intn(65536))
 		}
 		i := i
@@ -335,7 +339,7 @@ func c10Inputs(l *Lab, cfg c10Cfg, rnd *rand.Rand) []c10Input {
 			}
 		}
 	}
-	for i := 0; i < l.Pick(300, 20000); i++ {
+	for i := 0; i < l.Pick(300, 6000); i++ {
 		i := i
 		seed := rnd.Int63()
 		add("prng-packets", fmt.Sprintf("prng packet stream %d", i), func(w *c10World, rec *c10Rec) {
@@ -843,7 +847,7 @@ func c10RunConfig(l *Lab, rep *Report, idp *IdP, cfg c10Cfg, ci int) {
 			faultsSeen = len(fl)
 		}
 		if w.authp != nil {
-			if fl := ScanFaults(w.authp.LogText()); len(fl) > authFaultsSeen {
+			if fl := w.authp.Faults(); len(fl) > authFaultsSeen {
 				bad = "rdpgw-auth fault: " + fl[authFaultsSeen]
 				authFaultsSeen = len(fl)
 			}
@@ -881,7 +885,7 @@ func c10RunConfig(l *Lab, rep *Report, idp *IdP, cfg c10Cfg, ci int) {
 		}
 		faultsSeen = len(w.gw.Faults())
 		if w.authp != nil {
-			authFaultsSeen = len(ScanFaults(w.authp.LogText()))
+			authFaultsSeen = len(w.authp.Faults())
 		}
 	}
 	w.gw.Stop()
@@ -961,7 +965,7 @@ func c10Bisect(w *c10World, in []c10Input) (*c10Input, string, c10Ctx) {
 		}
 		logctx := w.gw.FaultContext(3000)
 		if w.authp != nil {
-			if fl := ScanFaults(w.authp.LogText()); len(fl) > 0 {
+			if fl := w.authp.Faults(); len(fl) > 0 {
 				what = "rdpgw-auth: " + fl[0]
 				logctx = trunc(w.authp.LogText(), 3000)
 			}
